@@ -23,8 +23,6 @@
       ns     : number of samples (>= 1)                                                                        *)
 EXTENDS Integers, Sequences, FiniteSets, TLC
 
-CONSTANT Expand(_)          \* case value (variable c) -> configuration; supplied by the model instance
-
 Range(s) == {s[i] : i \in DOMAIN s}
 RECURSIVE SetSum(_, _)
 SetSum(S, v) == IF S = {} THEN 0 ELSE LET x == CHOOSE y \in S : TRUE IN v[x] + SetSum(S \ {x}, v)
@@ -180,7 +178,8 @@ LawLoopOrderFree(G) == LET a == LoopRun(G, 1) b == LoopRun(Reversed(G), 1) IN
                        a.res = b.res /\ (a.res = "ok" => a.v = b.v) /\ a.diag = b.diag
 
 (* ------------------------------------------------------------------ 3. abstract state machine *)
-VARIABLES c,          \* the case (compact); G = Expand(c)
+VARIABLES c,          \* the case in compact form (model instances enumerate it)
+          cfg,          \* the configuration being sampled (set by the model instance when it picks the case)
           out,        \* case-enumeration models: the allowed outcome of c
           val,        \* the sample dictionary being built (function name -> Int)
           pending,    \* dependents without a value yet
@@ -190,58 +189,59 @@ VARIABLES c,          \* the case (compact); G = Expand(c)
           done,       \* finished samples: sequence of [v |-> sample, o |-> resolution order]
           hist,       \* resolution order of the current sample
           scan, pos, progress, passes     \* pass loop only: snapshot being scanned, index into it, flag, pass count
-absvars  == <<c, out, val, pending, phase, diag, k, done, hist>>
+absvars  == <<c, cfg, out, val, pending, phase, diag, k, done, hist>>
 loopvars == <<scan, pos, progress, passes>>
-vars     == <<c, out, val, pending, phase, diag, k, done, hist, scan, pos, progress, passes>>
+vars     == <<c, cfg, out, val, pending, phase, diag, k, done, hist, scan, pos, progress, passes>>
 Terminal == {"done", "failed"}
 
+EmptyCfg == [decl |-> <<>>, consts |-> <<>>, ns |-> 1]
 \* machine not in use (case-enumeration and trace models)
-Parked == /\ val = <<>> /\ pending = {} /\ phase = "parked" /\ diag = NoDiag /\ k = 0 /\ done = <<>> /\ hist = <<>>
+Parked == /\ cfg = EmptyCfg /\ val = <<>> /\ pending = {} /\ phase = "parked" /\ diag = NoDiag /\ k = 0 /\ done = <<>> /\ hist = <<>>
           /\ scan = <<>> /\ pos = 0 /\ progress = FALSE /\ passes = 0
-SeedState == /\ val = <<>> /\ pending = {} /\ phase = "seed" /\ diag = NoDiag /\ k = 1 /\ done = <<>> /\ hist = <<>>
+SeedState == /\ cfg = EmptyCfg /\ val = <<>> /\ pending = {} /\ phase = "seed" /\ diag = NoDiag /\ k = 1 /\ done = <<>> /\ hist = <<>>
              /\ scan = <<>> /\ pos = 1 /\ progress = FALSE /\ passes = 0
 
 DrawIndependent ==
   /\ phase = "start"
-  /\ val' = IndepVals(Expand(c), k)
-  /\ pending' = Dependents(Expand(c))
+  /\ val' = IndepVals(cfg, k)
+  /\ pending' = Dependents(cfg)
   /\ phase' = "resolving"
   /\ hist' = <<>>
-  /\ UNCHANGED <<c, out, diag, k, done>>
+  /\ UNCHANGED <<c, cfg, out, diag, k, done>>
 
-Ready(s) == DepsOf(Expand(c), s) \subseteq DOMAIN val
+Ready(s) == DepsOf(cfg, s) \subseteq DOMAIN val
 Resolve(s) ==
   /\ phase = "resolving"
   /\ s \in pending
   /\ Ready(s)
-  /\ val' = val @@ (s :> 1 + SetSum(DepsOf(Expand(c), s), val))
+  /\ val' = val @@ (s :> 1 + SetSum(DepsOf(cfg, s), val))
   /\ pending' = pending \ {s}
   /\ hist' = Append(hist, s)
-  /\ UNCHANGED <<c, out, phase, diag, k, done>>
+  /\ UNCHANGED <<c, cfg, out, phase, diag, k, done>>
 
 Finish ==
   /\ phase = "resolving"
   /\ pending = {}
   /\ done' = Append(done, [v |-> val, o |-> hist])
-  /\ IF k < Expand(c).ns THEN k' = k + 1 /\ phase' = "start" ELSE k' = k /\ phase' = "done"
+  /\ IF k < cfg.ns THEN k' = k + 1 /\ phase' = "start" ELSE k' = k /\ phase' = "done"
   /\ val' = <<>>
   /\ hist' = <<>>
-  /\ UNCHANGED <<c, out, pending, diag>>
+  /\ UNCHANGED <<c, cfg, out, pending, diag>>
 
 IsStuck == phase = "resolving" /\ pending # {} /\ \A s \in pending : ~Ready(s)
-MissingNow == MissingIn(Expand(c), pending, val)
+MissingNow == MissingIn(cfg, pending, val)
 FailUndefined ==
   /\ IsStuck
   /\ MissingNow # {}
   /\ phase' = "failed"
   /\ diag' = [d |-> "undefined", names |-> MissingNow]
-  /\ UNCHANGED <<c, out, val, pending, k, done, hist>>
+  /\ UNCHANGED <<c, cfg, out, val, pending, k, done, hist>>
 FailCircular ==
   /\ IsStuck
   /\ MissingNow = {}
   /\ phase' = "failed"
   /\ diag' = [d |-> "circular", names |-> pending]
-  /\ UNCHANGED <<c, out, val, pending, k, done, hist>>
+  /\ UNCHANGED <<c, cfg, out, val, pending, k, done, hist>>
 
 Halt == phase \in Terminal /\ UNCHANGED vars
 AbsStep == DrawIndependent \/ (\E s \in pending : Resolve(s)) \/ Finish \/ FailUndefined \/ FailCircular
@@ -251,7 +251,7 @@ AbsNext == AbsStep /\ UNCHANGED loopvars
 LDraw == DrawIndependent /\ scan' = <<>> /\ pos' = 1 /\ progress' = FALSE /\ passes' = 0
 LStartPass ==                                   \* "while unevaluated_dependents:" entered, snapshot list(items())
   /\ phase = "resolving" /\ pos > Len(scan) /\ pending # {} /\ (passes = 0 \/ progress)
-  /\ scan' = DeclOrder(Expand(c), pending)
+  /\ scan' = DeclOrder(cfg, pending)
   /\ pos' = 1 /\ progress' = FALSE /\ passes' = passes + 1
   /\ UNCHANGED absvars
 LVisit ==                                       \* one iteration of the for loop
@@ -265,49 +265,49 @@ LFail ==                                        \* "if not progress_made:"
   /\ phase = "resolving" /\ pos > Len(scan) /\ pending # {} /\ passes > 0 /\ ~progress
   /\ phase' = "failed"
   /\ diag' = IF MissingNow # {} THEN [d |-> "undefined", names |-> MissingNow] ELSE [d |-> "circular", names |-> pending]
-  /\ UNCHANGED <<c, out, val, pending, k, done, hist, scan, pos, progress, passes>>
+  /\ UNCHANGED <<c, cfg, out, val, pending, k, done, hist, scan, pos, progress, passes>>
 LoopNext == LDraw \/ LStartPass \/ LVisit \/ LFinish \/ LFail
 
 (* ------------------------------------------------------------------ invariants (both machines) *)
 Running == phase \in {"start", "resolving", "done", "failed"}
 TypeOK == Running =>
-  /\ phase = "resolving" => DOMAIN val \cap pending = {} /\ Required(Expand(c)) \subseteq DOMAIN val \cup pending
-  /\ pending \subseteq Dependents(Expand(c))
-  /\ k \in 1..Expand(c).ns
+  /\ phase = "resolving" => DOMAIN val \cap pending = {} /\ Required(cfg) \subseteq DOMAIN val \cup pending
+  /\ pending \subseteq Dependents(cfg)
+  /\ k \in 1..cfg.ns
   /\ Len(done) = (IF phase = "done" THEN k ELSE k - 1)
   /\ phase = "failed" <=> diag # NoDiag
 \* at every moment every value present is the one the formulas give (partial consistency)
 InvPartial == phase = "resolving" =>
-  /\ \A s \in DOMAIN val \cap Dependents(Expand(c)) : val[s] = 1 + SetSum(DepsOf(Expand(c), s), val)
-  /\ \A s \in DOMAIN val : val[s] = Solution(Expand(c), k)[s]
-  /\ ValidOrder(Expand(c), hist) /\ Range(hist) = DOMAIN val \cap Dependents(Expand(c))
+  /\ \A s \in DOMAIN val \cap Dependents(cfg) : val[s] = 1 + SetSum(DepsOf(cfg, s), val)
+  /\ \A s \in DOMAIN val : val[s] = Solution(cfg, k)[s]
+  /\ ValidOrder(cfg, hist) /\ Range(hist) = DOMAIN val \cap Dependents(cfg)
 \* confluence: whatever order was taken, the finished samples are THE solution; failures are THE diagnosis
 Settled == phase \in {"start", "done", "failed"}        \* the states right after Finish / Fail* (done changes only there)
-InvConfluent == /\ Settled => \A j \in DOMAIN done : done[j].v = Solution(Expand(c), j)
-                /\ phase = "failed" => diag = Diagnosis(Expand(c)) /\ pending = Stuck(Expand(c))
-InvComplete == Settled => \A j \in DOMAIN done : DOMAIN done[j].v = Required(Expand(c))
-InvConsistent == Settled => \A j \in DOMAIN done : SampleOK(Expand(c), done[j].v) /\ FullOrder(Expand(c), done[j].o)
+InvConfluent == /\ Settled => \A j \in DOMAIN done : done[j].v = Solution(cfg, j)
+                /\ phase = "failed" => diag = Diagnosis(cfg) /\ pending = Stuck(cfg)
+InvComplete == Settled => \A j \in DOMAIN done : DOMAIN done[j].v = Required(cfg)
+InvConsistent == Settled => \A j \in DOMAIN done : SampleOK(cfg, done[j].v) /\ FullOrder(cfg, done[j].o)
 \* cyclic or dangling <=> failure, and never a value
-InvFailIffBad == /\ phase = "done" => WellFounded(Expand(c))
-                 /\ phase = "failed" => ~WellFounded(Expand(c)) /\ k = 1
-                 /\ Running /\ ~WellFounded(Expand(c)) => done = <<>>
+InvFailIffBad == /\ phase = "done" => WellFounded(cfg)
+                 /\ phase = "failed" => ~WellFounded(cfg) /\ k = 1
+                 /\ Running /\ ~WellFounded(cfg) => done = <<>>
 \* pass loop: bookkeeping
 InvLoop == phase = "resolving" =>
   /\ pos \in 1..(Len(scan) + 1)
   /\ \A i \in pos..Len(scan) : scan[i] \in pending
-  /\ passes <= Cardinality(Dependents(Expand(c)))
+  /\ passes <= Cardinality(Dependents(cfg))
   /\ progress => passes > 0
-InvLoopPredicted == /\ Settled => \A j \in DOMAIN done : done[j].o = LoopRun(Expand(c), j).order
-                    /\ phase = "failed" => hist = LoopRun(Expand(c), 1).order /\ passes = LoopRun(Expand(c), 1).passes
-                                           /\ diag = LoopRun(Expand(c), 1).diag
+InvLoopPredicted == /\ Settled => \A j \in DOMAIN done : done[j].o = LoopRun(cfg, j).order
+                    /\ phase = "failed" => hist = LoopRun(cfg, 1).order /\ passes = LoopRun(cfg, 1).passes
+                                           /\ diag = LoopRun(cfg, 1).diag
 
 \* termination measures (strictly decreasing on every non-stuttering step)
-ND == Cardinality(Dependents(Expand(c)))
+ND == Cardinality(Dependents(cfg))
 AbsRank == IF phase = "seed" THEN 1000000 ELSE IF phase \in Terminal THEN 0
-           ELSE (Expand(c).ns - k) * (ND + 2) + (IF phase = "start" THEN ND + 2 ELSE Cardinality(pending) + 1)
+           ELSE (cfg.ns - k) * (ND + 2) + (IF phase = "start" THEN ND + 2 ELSE Cardinality(pending) + 1)
 LoopRank == IF phase = "seed" THEN 1000000 ELSE IF phase \in Terminal THEN 0
             ELSE LET per == (ND + 3) * (ND + 3) + 2 IN
-                 (Expand(c).ns - k) * per +
+                 (cfg.ns - k) * per +
                  (IF phase = "start" THEN per
                   ELSE 1 + (Cardinality(pending) + (IF progress \/ passes = 0 THEN 1 ELSE 0)) * (ND + 2) + (Len(scan) + 1 - pos))
 AbsDecreases == [][AbsRank' < AbsRank]_vars
